@@ -7,7 +7,6 @@ import (
 	"math/rand/v2"
 	"net"
 	"net/http"
-	"net/http/httptest"
 	"sort"
 	"strings"
 	"sync"
@@ -238,9 +237,9 @@ func c07Retry(c *Ctx) {
 			c.Violation("expression/rejected", sfmt("buffer.Retry rejected the generated expression %q: %v", exprText, err), desc)
 			return
 		}
-		srv := httptest.NewServer(buf)
+		srv := newTestServer(buf)
 		defer srv.Close()
-		bare := httptest.NewServer(http.HandlerFunc(func(w http.ResponseWriter, req *http.Request) { scripts[final-1].serve(w, final) }))
+		bare := newTestServer(http.HandlerFunc(func(w http.ResponseWriter, req *http.Request) { scripts[final-1].serve(w, final) }))
 		defer bare.Close()
 		var reqBody []byte
 		if method == "POST" || method == "PUT" {
